@@ -264,7 +264,10 @@ def unit_dtype(_cfg):
                                         continue
                                     n += 1
                                     req = None if sp is None else sp + bang
-                                    got = core.parse_dtype(info, req, platform)
+                                    try:
+                                        got = core.parse_dtype(info, req, platform)
+                                    except Exception as exc:    # a documented spelling must not be refused
+                                        got = ("raised", type(exc).__name__, str(exc)[:80])
                                     want = _want_dtype(sp, bang, platform, gpu, env, opencl, single)
                                     if (got[0], got[1], got[2]) == want:
                                         u.r["validated"] += 1
